@@ -48,17 +48,17 @@ pub fn offset_to_location<const S: usize>(file: &str, offsets: &[u32; S]) -> [Co
 		.chain(std::iter::once((file.len(), ' ')))
 	{
 		column += 1;
-		match offset_map.last() {
-			Some(x) if x.0 == pos as u32 => {
-				let out_idx = x.1;
-				with_no_known_line_ending.push(out_idx);
-				out[out_idx].offset = pos;
-				out[out_idx].line = line;
-				out[out_idx].column = column;
-				out[out_idx].line_start_offset = this_line_offset;
-				offset_map.pop();
+		while let Some(x) = offset_map.last() {
+			if x.0 != pos as u32 {
+				break;
 			}
-			_ => {}
+			let out_idx = x.1;
+			with_no_known_line_ending.push(out_idx);
+			out[out_idx].offset = pos;
+			out[out_idx].line = line;
+			out[out_idx].column = column;
+			out[out_idx].line_start_offset = this_line_offset;
+			offset_map.pop();
 		}
 		if ch == '\n' {
 			line += 1;
